@@ -258,8 +258,8 @@ Proof.
     { rewrite E2. destruct (_ && _); [now apply emit_node_ctl|cbn; exact H]. }
     destruct (kind t =? K_Comment).
     { cbn [negb]. unfold emit_node. destruct (node_locate t) as [l| | | |]; cbn [bind]; try (cbn; reflexivity).
-      repeat match goal with |- rel_res _ _ (if ?b then _ else _) => destruct b end; cbn;
-        auto using emit_ctl, emit_ctl_l. }
+      repeat match goal with |- context [if ?b then _ else _] => destruct b end; cbn;
+        auto 8 using emit_ctl, emit_ctl_l. }
     destruct (kind t =? K_TextMacroDefinition); [now apply define_enter_ctl|].
     destruct (kind t =? K_IncludeCompilerDirective) eqn:EK.
     { cbn [andb]. destruct (negb ig); [|
